@@ -198,6 +198,7 @@ pub fn run(ctx: &Ctx) -> i32 {
                 });
                 if let Ok(Ok(())) = r {
                     check_built(case, &sink.data(), "random-chunked sink", ev);
+                    check_built(case, &sink.committed_data(), "random-chunked sink that keeps only what was flushed", ev);
                     ev.count("built-fsts-verified:chunked-sink");
                 }
             }
